@@ -31,8 +31,8 @@ TFirst == /\ IsEvent("Attempt") /\ n = 0 /\ StartAttempt
 \* later attempt: the previous one failed, the scheduled delay elapsed (and not more than Slack beyond it),
 \* and the timer was due before the deadline (or the delay is zero)
 TRetry == /\ IsEvent("Attempt") /\ phase = "inflight" /\ n >= 1 /\ AttemptFails(n)
-          /\ LET sched == NextDelay(delay) t == Trace[l].t IN
-               /\ t - now >= sched /\ t - now <= sched + Slack
+          /\ LET sched == NextDelay(delay) t == Trace[l].t d == Trace[l].prevDur IN      \* d: how long the failed attempt took (ms, rounded down)
+               /\ t - now >= sched + d /\ t - now <= sched + d + 1 + Slack            \* the wait starts when the attempt has failed: it is not shortened by it
                /\ (now + sched <= Timeout + Slack \/ sched = 0)
                /\ delay' = sched /\ waits' = Append(waits, sched)
                /\ now' = t /\ n' = n + 1 /\ waitFrom' = t
@@ -55,7 +55,7 @@ TReturnOk == /\ IsEvent("Return") /\ Trace[l].kind = "ok"
 TReturnErr == /\ IsEvent("Return") /\ Trace[l].kind = "error"
               /\ phase = "inflight" /\ AttemptFails(n)                     \* Finish(d) . DeadlineFires
               /\ Trace[l].t >= Timeout                                     \* never before the deadline
-              /\ Trace[l].t <= Timeout + Max + Slack                       \* "roughly timeout plus one retry delay"
+              /\ Trace[l].t <= Timeout + Max + Slack + (IF "lastDur" \in DOMAIN Trace[l] THEN Trace[l].lastDur ELSE 0)      \* "roughly timeout plus one retry delay"
               /\ now + NextDelay(delay) + Slack >= Timeout                 \* the retry timer was not clearly due first
               /\ Trace[l].attempts = n
               /\ result' = "error" /\ phase' = "done" /\ now' = Trace[l].t
